@@ -282,6 +282,28 @@ pub fn run(tier: Tier) -> i32 {
     if ctx.counters.lock().unwrap().get("deliveries_accepted").copied().unwrap_or(0) == 0 {
         ctx.vacuous("no delivery was ever accepted: the rejections prove nothing");
     }
+    // If snow's sources contain a synchronisation primitive (they do not on the pinned tree), a read's result
+    // may depend on what other threads do with the same session: "returns exactly the written payload" is then
+    // also checked under every interleaving at those primitives (the shuttle-mapped copy C16 uses).
+    let (_, hits) = super::c16::scan_sync_primitives(&std::env::var("SNOW_REPO_SRC").unwrap_or_else(|_| "/repo/src".to_string()));
+    ctx.set("repo_src_sync_primitive_mentions", json!(hits));
+    if !hits.is_empty() {
+        match super::c16::run_mapped_copy(if ctx.quick() { "quick" } else { "thorough" }) {
+            Ok(v) => {
+                let n = v["schedules"].as_u64().unwrap_or(0);
+                ctx.add(&ctx.evaluations, n);
+                ctx.add(&ctx.traces, n);
+                ctx.count("schedules: concurrent reads on the shuttle-mapped copy of snow", n);
+                for d in v["violations"].as_array().cloned().unwrap_or_default() {
+                    let d = d.as_str().unwrap_or("").to_string();
+                    if d.contains("Read") && (d.contains("returned Ok with other bytes") || d.contains("succeeded although")) {
+                        ctx.violation("a transport read running concurrently with other calls on the same session returned Ok with something else than the written payload", d, json!({"kind": "mapped"}));
+                    }
+                }
+            },
+            Err(e) => ctx.note(format!("shuttle-mapped copy not explored: {e} (not a verdict)")),
+        }
+    }
     let (p0, b0, s0, pl0, st0) = &cases[0];
     let o0 = ops_for(p0, *b0, *s0, *pl0, *st0);
     ctx.sample(json!({"name": p0.name, "backend": b0, "ops_head": &o0[..8.min(o0.len())], "ops_total": o0.len()}));
@@ -292,5 +314,12 @@ pub fn run(tier: Tier) -> i32 {
 }
 
 pub fn replay(case: &serde_json::Value) -> Result<(), String> {
+    if case["kind"] == "mapped" {
+        let v = super::c16::run_mapped_copy("quick")?;
+        return match v["violations"].as_array().and_then(|a| a.iter().find(|d| d.as_str().map_or(false, |d| d.contains("Read") && (d.contains("returned Ok with other bytes") || d.contains("succeeded although"))))) {
+            Some(d) => Err(d.as_str().unwrap_or("").to_string()),
+            None => Ok(()),
+        };
+    }
     replay_cats(case, &CATS)
 }
